@@ -896,7 +896,12 @@ fn agreement_tokens(d: &Decl, path: &[String], rng: &mut Rng) -> Option<(Vec<Str
                 if f.is_flag() {
                     groups.push((vec![spelled], false, None, if use_short { *short } else { None }));
                 } else {
-                    groups.push((vec![spelled, gen_value(rng, f.ty, false)], !required, if use_short { *short } else { None }, None));
+                    // now and then the value of a text option is spelled like one of the sub-commands that follow
+                    let val = match (&v.sub, f.ty) {
+                        (Some(sp), Ty::Str) if rng.chance(30) => rng.pick(&d.enums[sp.enum_idx].variants).name.clone(),
+                        _ => gen_value(rng, f.ty, false),
+                    };
+                    groups.push((vec![spelled, val], !required, if use_short { *short } else { None }, None));
                 }
             }
         }
